@@ -242,7 +242,7 @@ template<int D> void run_case(long id, view_program const& p, std::string const&
 		}
 	}
 	os << "}\n";
-	std::cout << os.str();
+	std::cout << os.str() << std::flush;
 }
 
 int main() {
